@@ -15,7 +15,7 @@ ID = 'C19'
 
 MANIFEST = {
     'engine': 'symx',
-    'text': 'Bounded symbolic exploration of the real generator source (generate_data, _configure_generate_feature, _generate_feature, generate_random_matrix, the generator task) running on the real numpy, with numpy.random replaced by a stub whose every draw (choice, randint, shuffle) is decided by the solver: the sizes, cardinality, low, ensure_rep, random_values, the structure description (chosen from templates mixing single indices, index lists, cardinalities, value lists and value/frequency pairs) and ALL outcomes of all draws are explored; on every path the shape/int32 type, per-column domain membership, placement of structured features at their declared indices and the ensure_rep clause are compared with the declaration. Seed clause: RNG state = (seed, counter) and a draw is a function of the state, so "same seed => same data" is checked across an unrelated intervening draw, and a forgotten seed() yields a counterexample. Naive generator: the needle cells are symbolic over boundary values; label must be one fixed function of the needle cell alone.',
+    'text': 'Bounded symbolic exploration of the real generator source (generate_data, _configure_generate_feature, _generate_feature, generate_random_matrix, the generator task) running on the real numpy, with numpy.random replaced by a stub whose every draw (choice, randint, shuffle) is decided by the solver: the sizes, cardinality, low, ensure_rep, random_values, the structure description (chosen from templates mixing single indices, index lists, cardinalities, value lists and value/frequency pairs) and ALL outcomes of all draws are explored; on every path the shape/int32 type, per-column domain membership, placement of structured features at their declared indices and the ensure_rep clause are compared with the declaration. Seed clause: RNG state = (seed, counter) and a draw is a function of the state, so "same seed => same data" is checked across an unrelated intervening draw, and a forgotten seed() yields a counterexample. Naive generator: the needle cells are symbolic over boundary values; label must be one fixed function of the needle cell alone. Structure templates include one-element value lists (list and numpy array); random domains are also drawn from bounds wider than 2^16 candidates (representative draws) and with upper bound 0; numpy.random.default_rng is modelled as a generator of its own (seeded: a function of its seed; unseeded: fresh entropy that numpy.random.seed does not determine).',
     'note': 'n_features<=3, n_samples<=3, cardinality<=3 (quick); the shape of the sampling distribution is not claimed (only: drawn values have positive probability); unsorted structure indices are outside (documented usage); naive generator: only the needle column cells are symbolic, over {10, 39, 40, 99}.',
     'technique': 'solver-driven bounded exploration of the real Python code on real numpy with a nondeterministic RNG stub (every draw a solver decision; coverage certificate by decision-tree audit)',
 }
